@@ -469,7 +469,8 @@ promised_continuity = REG.add(Contract(
 # Chunk.concatenate (two chunks of one run): spans both, rows of the first followed by the rows of the second
 # --------------------------------------------------------------------------------------
 from pyvc.contract import make_symbolic as _mk  # noqa: E402
-from pyvc.engine import St as _St, Exc as _Exc  # noqa: E402
+from pyvc.engine import St as _St, Exc as _Exc, Unsupported  # noqa: E402
+import z3  # noqa: E402
 
 
 def _np_concatenate(eng, args, kw, st, fr, k, node):
@@ -541,8 +542,14 @@ def _merge_arrs_model(eng, args, kw, st, fr, k, node):
     """strax.merge_arrs([a, b], dtype=...): ASSUMED contract - an array with as many rows as its (equally long) parts whose
     time / endtime are those of the LAST part (on field collisions the later array wins)"""
     parts = args[0]
-    if not (isinstance(parts, list) and len(parts) == 2):
-        raise Unsupported("merge_arrs of other than two arrays")
+    chunks = st.env.get("chunks")
+    in_order = isinstance(parts, list) and len(parts) == 2 and isinstance(chunks, (list, tuple)) and len(chunks) == 2 and all(
+        getattr(p_, "base", None) == st.heap[c_.base]["data"].base for p_, c_ in zip(parts, chunks))
+    eng.oblige("merge", "merge_arrs is given the chunks' data in the order the chunks were passed (on shared fields the LAST dependency wins)",
+               st, z3.BoolVal(bool(in_order)), node)
+    if not in_order:
+        res, st = _mk(eng, eng.new_base("merged"), INTERVALS, st, set())
+        return k(res, st)
     eng.assumptions.add("assumed contract of strax.merge_arrs for two equally long arrays (time / endtime of the last array win)")
     a, b = parts
     res, st = _mk(eng, eng.new_base("merged"), INTERVALS, st, set())
